@@ -11,6 +11,7 @@
             `ok C <period> <n> v1 v2 …`         (continuous result),  `err:<class>`.
 
   Histories on one object (Model/FilterObj.lean):
+    hists … = hist on a tree whose continuous class refuses an in-place cull to a non-dividing timestep
     hist <kind c|d|y|m> <mutable 0|1> <period> <validated 0|1> <n keys…> <n values…> <nops> <op>…
   with ops   read <R> | chain <R> | setv <n values…> | setbad <k> | seti <i> <v> | cull <ts> | dup | toimm |
              tomut | todisc
@@ -263,21 +264,21 @@ def opIsAll : Op → Bool
   | .chain .all => true
   | _ => false
 
-def runHist : P String := do
+def runHist (strict : Bool) : P String := do
   let kind ← pKind; let mutable ← pBool; let ap ← pAP; let v ← pBool
   let keys ← pList pNat; let vals ← pList pInt
   let ops ← pList pOp; pEnd
   match Obj.mk? kind mutable ap keys vals v with
   | none => failure
   | some o =>
-    let outs := (Filter.run hoyOf o ops).2
+    let outs := (Filter.runS strict hoyOf o ops).2
     pure (" | ".intercalate ((ops.zip outs).map fun x => showOut (opIsAll x.1) x.2))
 
 def handle (toks : List String) : String :=
   match toks with
   | [] => "bad-op"
   | op :: rest =>
-    match (if op = "hist" then runHist else run op).run rest with
+    match (if op = "hist" then runHist false else if op = "hists" then runHist true else run op).run rest with
     | some (s, _) => s
     | none => "bad-op"
 
